@@ -564,6 +564,12 @@ func (st *tunnelServerStream) readMsgLocked() (data []byte, ok bool, err error) 
 				// stream's context is done; never report a message
 				err = context.Canceled
 			}
+			if ctxErr := st.ctx.Err(); err == io.EOF && ctxErr != nil {
+				// The receiver is also cancelled when the stream's context
+				// ends, which discards any requests still queued. So we can't
+				// claim to have reached the end of the request stream.
+				err = ctxErr
+			}
 			if msgLen != -1 && err == io.EOF {
 				// stream half-closed normally, but in the middle of a message
 				return nil, false, status.Errorf(codes.InvalidArgument, "client half-closed stream before request message was finished (%d/%d)", len(b), msgLen)
